@@ -829,6 +829,28 @@ func groupInvalid() {
 	sib2.add("T", ptr(sref(top)), 1, "optional")
 }
 
+// clusters of mutually nested types that are first used concurrently (C08):
+//   W{*A}, A{*B, *C1..*Ck}, B{*A}; every cluster consists of fresh types
+func groupClusters(n, k int) {
+	for i := 0; i < n; i++ {
+		w := newStruct("cluster")
+		a := newStruct("cluster")
+		b := newStruct("cluster")
+		w.add("A", ptr(sref(a)), 1, "optional")
+		w.add("V", prim("int32"), 2, "default")
+		a.add("B", ptr(sref(b)), 1, "optional")
+		for j := 0; j < k; j++ {
+			cst := newStruct("clusterleaf")
+			cst.add("X", prim("int64"), 1, "default")
+			cst.add("Y", list(prim("string")), 2, "optional")
+			cst.add("Z", mapOf(prim("string"), prim("int32")), 3, "optional")
+			a.add(fmt.Sprintf("C%d", j), ptr(sref(cst)), 2+j, "optional")
+		}
+		b.add("A", ptr(sref(a)), 1, "optional")
+		b.add("N", prim("string"), 2, "default")
+	}
+}
+
 // ---------- random part ----------
 
 func randScalar() *Ty {
@@ -1053,6 +1075,7 @@ func main() {
 	groupEvolution()
 	groupSpellings()
 	groupInvalid()
+	groupClusters(10, 14)
 	groupRandom(*nrand, *depth)
 	emit(*out)
 	fmt.Printf("gentypes: %d structs\n", len(structs))
